@@ -193,6 +193,16 @@ def run(case):
                     if wrong:
                         vio.append({'mech': 'metadata-loser-wins', 'what': f'at {path!r} the winning stage {win[2]} wrote {win[4]} but node has {have}; texts={texts!r}'})
                         break
+                    # "combined under the same rule": key by key, also for keys the overall winner did not write
+                    for k in sorted(allkeys):
+                        kw = model.winner([x for x in w if k in x[4]])
+                        if have.get(k) != kw[4][k]:
+                            vio.append({'mech': 'metadata-key-not-from-its-winning-writer', 'what': f'at {path!r} metadata key {k!r}: writers (prio, stage, value) = {[(x[1], x[2], x[4][k]) for x in w if k in x[4]]}, the rule gives {kw[4][k]!r} (stage {kw[2]}) but the node has {have.get(k)!r}; texts={texts!r}'})
+                            break
+                        if kw is not win:
+                            feats.append('metadata_key_decided_among_losers')
+                    if vio:
+                        break
                     if allkeys:
                         feats.append('metadata_checked')
     res = {'status': 'violation' if vio else 'ok', 'nontrivial': contested > 0, 'feats': feats, 'sig': util.sig(texts)}
